@@ -281,6 +281,9 @@ class Engine:
         for c in extra:
             s.add(c)
         s.add(z3.Not(ob.prop))
+        if self.float_mode == 'F':
+            from . import cvc5_backend
+            return cvc5_backend.check(s.assertions(), [], max(self.solver_timeout_ms, 600000))
         saved = self.solver
         self.solver = s
         try:
